@@ -3,7 +3,7 @@ import re
 
 from ..facts import AnalysisGap, walk
 from .. import collect, ftpl, hq, sym
-from .c01 import C, P, M, AND, ALL, IMP, NOT, LE, check_tpl, match, reduce, render, rn, var, key
+from .c01 import check_conjoin, C, P, M, AND, ALL, IMP, NOT, LE, check_tpl, match, reduce, render, rn, var, key
 
 EXPLANATION = (
     "The natural translation follows Lifschitz, `Transforming Gringo Rules into Formulas in a Natural Way` (2021); its HT-equivalence with tau* on "
@@ -578,6 +578,7 @@ def rule_templates(ctx):
     uv = reduce(sym.Eval(fx, inline_depth=0).function(ub, [P("$f")]))
     ctx.add("TPL", "universal_closure", uv[0] == "call" and uv[1] == "Formula::quantify" and uv[2][0] == P("$f") and uv[2][1] == ("ctor", "Quantifier::Forall", ()) and "Formula::free_variables" in key(uv[2][2]) and "$f" in key(uv[2][2]),
             ctx.site(ub), "universal_closure quantifies exactly the free variables of the formula, universally")
+    check_conjoin(ctx)
     # program: all or nothing
     v, b = ev(fx, "natural", [P("$p")])
     NR = ("call", "natural::natural_rule", (("each", ("place", "$p.rules")),))
